@@ -1,5 +1,5 @@
 //! Ping source under the baton scheduler (C03).
-//! Case line:  <ndispatch> | prog1;prog2;... | schedule      progs: strings over p (ping) c (clone) x (drop); schedule: digits
+//! Case line:  <ndispatch> [cbpings] | prog1;prog2;... | schedule      (cbpings: the first n callbacks ping their own source)      progs: strings over p (ping) c (clone) x (drop); schedule: digits
 //! Output: the executed steps `tid:yieldid`, `CB` (callback), `RM` (source gone), and a summary.
 use crate::sched::{yield_here, Sched, StepResult};
 use calloop::ping::{make_ping, Ping};
@@ -14,7 +14,9 @@ fn run_case(line: &str) -> String {
     if parts.len() != 3 {
         return "BAD".into();
     }
-    let ndisp: usize = parts[0].parse().unwrap_or(0);
+    let head: Vec<usize> = parts[0].split_whitespace().filter_map(|w| w.parse().ok()).collect();
+    let ndisp: usize = head.first().copied().unwrap_or(0);
+    let cbpings: usize = head.get(1).copied().unwrap_or(0);
     let progs: Vec<String> = parts[1].split(';').map(|s| s.trim().to_string()).filter(|s| !s.is_empty() || true).collect();
     let schedule: Vec<usize> = parts[2].chars().filter_map(|c| c.to_digit(10).map(|d| d as usize)).collect();
     let n = progs.len() + 1;
@@ -25,12 +27,23 @@ fn run_case(line: &str) -> String {
     {
         let log = log.clone();
         let extra = 3usize;
+        // the callback owns a clone of the handle when it is going to ping
+        let cb_handle = if cbpings > 0 { Some(ping.clone()) } else { None };
         sched.spawn(0, move || {
             let mut event_loop: EventLoop<'static, ()> = EventLoop::try_new().expect("loop");
             let l2 = log.clone();
+            let mut left = cbpings;
             let token = event_loop
                 .handle()
-                .insert_source(source, move |_, _, _| l2.lock().unwrap().push("CB".into()))
+                .insert_source(source, move |_, _, _| {
+                    l2.lock().unwrap().push("CB".into());
+                    if left > 0 {
+                        left -= 1;
+                        if let Some(p) = cb_handle.as_ref() {
+                            p.ping();
+                        }
+                    }
+                })
                 .expect("insert");
             let mut alive = true;
             for _ in 0..(ndisp + extra) {
@@ -41,6 +54,8 @@ fn run_case(line: &str) -> String {
                 }
                 alive = now_alive;
             }
+            // the loop (with the callback and the handle it may own) outlives the scenario
+            std::mem::forget(event_loop);
         });
     }
     // pinger threads: each starts with one handle
